@@ -1334,6 +1334,11 @@ class H2Connection:
         if acknowledged_size < 0:
             raise ValueError("Cannot acknowledge negative data")
 
+        # Nothing but GOAWAY may be sent on a closed connection, and nobody is
+        # left to use the window anyway.
+        if self.state_machine.state == ConnectionState.CLOSED:
+            return
+
         frames = []
 
         # Look the stream up first: for a stream that never existed this
